@@ -103,7 +103,7 @@ struct NodeWorld : World {
         rtosc::AutomationMgr *mgr = new rtosc::AutomationMgr(3, 2, 4); mgr->set_ports(app::App::ports);
         mgr->createBinding(0, "/pi", false); mgr->createBinding(1, "/pf", false); mgr->createBinding(2, "/pt", false); mgr->createBinding(2, "/sub/sf", false);
         bool recording = true, nontrivial = false; uint64_t shape = 0; int opi = 0; char b[500];
-        struct Pending { std::vector<char> raw; std::string addr; V oldv, newv; bool automation; };
+        struct Pending { std::vector<char> raw; std::string addr; V oldv, newv; bool automation; bool expected; };   // expected: the statement demands an event (the stored value changed)
         std::deque<Pending> chan;        // undo events in flight from the node to the history
         std::vector<Emit> emitted; std::vector<bool> from_automation_at;   // per model entry: produced by automation?
         auto fail = [&](const char *cls, const std::string &d) { if (res.cls.empty()) { res.cls = cls; res.detail = d; } };
@@ -114,8 +114,10 @@ struct NodeWorld : World {
         auto after_dispatch = [&](int leaf, const Val &before, bool automation) {
             const Leaf &l = L[leaf];
             if (!recording) return;
-            for (auto &e : node.undo_events) { Pending p; p.raw = e.raw; p.addr = l.addr; p.automation = automation;
-                Val after = l.get(node.obj); p.oldv = toV(before, leaf_type(l)); p.newv = toV(after, leaf_type(l)); chan.push_back(p); stat_add(P_UNDO_EVENTS); }
+            Val after = l.get(node.obj); bool chg = l.numeric_or_option() && !(before == after) && !(l.kind == app::K_PARAM_F && before.f == after.f);
+            for (auto &e : node.undo_events) { Pending p; p.raw = e.raw; p.addr = l.addr; p.automation = automation; p.expected = chg; chg = false;
+                p.oldv = toV(before, leaf_type(l)); p.newv = toV(after, leaf_type(l)); chan.push_back(p); stat_add(P_UNDO_EVENTS); }
+            if (chg) { Pending p; p.addr = l.addr; p.automation = automation; p.expected = true; p.oldv = toV(before, leaf_type(l)); p.newv = toV(after, leaf_type(l)); chan.push_back(p); }   // a change without any event: the history can never undo it
         };
         auto real_matches = [&](const Model &m) {
             if (hist->getPos() != m.pos || hist->size() != m.h.size()) return false;
@@ -126,8 +128,10 @@ struct NodeWorld : World {
         auto deliver_one = [&]() {
             if (chan.empty()) return; Pending p = chan.front(); chan.pop_front(); int64_t now = g_clock_ns / 1000000LL;
             Model::Merge mg = um.classify(p.addr, now); bool atcap = um.pos == um.cap;
-            hist->recordEvent(p.raw.data());
+            if (!p.raw.empty()) hist->recordEvent(p.raw.data());
             if (c14) return;   // C14 mode: the history is only a source of messages
+            if (p.raw.empty()) { snprintf(b, sizeof b, "op %d: %s changed from %s to %s but its port emitted no undo event: the history cannot rewind this change", opi, p.addr.c_str(), p.oldv.str().c_str(), p.newv.str().c_str()); fail("E2E-RECORD", b); return; }
+            if (!p.expected) { if (!real_matches(um)) { snprintf(b, sizeof b, "op %d: %s did not change (%s) but an undo event was recorded for it (history pos=%u size=%zu)", opi, p.addr.c_str(), p.newv.str().c_str(), hist->getPos(), hist->size()); fail("E2E-RECORD", b); } return; }
             Model m1 = um.recorded(p.addr, p.oldv, p.newv, now, true), m0 = um.recorded(p.addr, p.oldv, p.newv, now, false);
             if (mg != Model::MUST_NOT && real_matches(m1)) { um = m1; stat_add(P_MERGED); }
             else if (mg != Model::MUST && real_matches(m0)) { um = m0; if (atcap) stat_add(P_EVICT); }
